@@ -114,7 +114,20 @@ func genCase(big bool) func(t *rapid.T) Case {
 			c.FilterPrefill = base - kit.Pick(t, "sfpre", []int{0, 0, 1, 3, 20})
 		}
 		if big && kit.Uni(t, "hard", 2) == 0 {
-			for h := 1000; h <= base+fut; h += 1000 {
+			// A hard-coded checkpoint belongs to the one chain the
+			// network has: only heights that lie below every fork
+			// point of the generated tree (on a real network the block
+			// checkpoints rule out a fork below a filter checkpoint;
+			// honest peers serve filter data for stale blocks too and
+			// would contradict the table there).
+			if straddle {
+				c.World.Branches = nil
+			}
+			lowest := base + fut
+			for _, b := range c.World.Branches {
+				lowest = min(lowest, b.At)
+			}
+			for h := 1000; h <= lowest; h += 1000 {
 				if straddle || rapid.Bool().Draw(t, "hardat") {
 					c.Hard = append(c.Hard, HardCk{H: h, Match: kit.Uni(t, "hardmatch", 4) != 0})
 				}
@@ -142,6 +155,11 @@ func genCase(big bool) func(t *rapid.T) Case {
 			}
 			if k == "ckptonly" {
 				from = (from/1000 + 1) * 1000
+				// a checkpoint height the chain actually reaches, above
+				// the pre-filled filter headers if there is one
+				if lo, hi := fp/1000+1, (base+fut)/1000; lo <= hi {
+					from = 1000 * rapid.IntRange(lo, hi).Draw(t, "ckptfrom")
+				}
 			}
 			d := kit.Pick(t, "pdelay", []int{0, 0, 0, 20, 200, 1500, 4000})
 			if k == "honest" && d > 200 {
@@ -182,6 +200,7 @@ type oracle struct {
 	verified []struct{ blk, ent chainhash.Hash }
 	truthOK  bool // honest peer + only provable / ckptonly / silent liars
 	hard     map[uint32]chainhash.Hash
+	ftip0    int // filter tip of the pre-filled store
 }
 
 func (o *oracle) fail(sym, format string, a ...any) {
@@ -215,7 +234,8 @@ func (o *oracle) check(when string) bool {
 	}
 	// every committed entry at a height with a hard-coded checkpoint equals it
 	for h, x := range o.hard {
-		if h <= fsn.Tip && fsn.Hdrs[h] != x {
+		// (entries of the pre-filled store are not the client's doing)
+		if int(h) > o.ftip0 && h <= fsn.Tip && fsn.Hdrs[h] != x {
 			o.fail("hard-checkpoint-violated", "%s: filter header committed at height %d is %v, the hard-coded filter-header checkpoint there is %v", when, h, fsn.Hdrs[h], x)
 			return false
 		}
@@ -291,6 +311,10 @@ func runCase(t *testing.T, c Case) kit.Verdict {
 	var v kit.Verdict
 	w := kit.BuildWorld(c.World)
 	o := &oracle{v: &v, w: w, c: c, connected: map[int]bool{0: true}, dropped: map[int]bool{}, truthOK: true}
+	o.ftip0 = c.World.Base - c.BlockLag
+	if c.FilterPrefill != 0 && c.FilterPrefill < o.ftip0 {
+		o.ftip0 = max(0, c.FilterPrefill)
+	}
 	for _, p := range c.Peers[1:] {
 		if p.Kind == "extra" {
 			o.truthOK = false
@@ -471,7 +495,9 @@ func runCase(t *testing.T, c Case) kit.Verdict {
 				v.Nontrivial = true
 				v.Class("lie-exercised:%s", ps.Kind)
 			}
-			if !provable[ps.Kind] || o.dropped[i] || !p.HasLied() || int(ft) < ps.From {
+			// (ckptonly: a filter checkpoint its sender's own filter
+			// headers do not add up to is provably false as well)
+			if !(provable[ps.Kind] || ps.Kind == "ckptonly") || o.dropped[i] || !p.HasLied() || int(ft) < ps.From {
 				continue
 			}
 			// A slow liar's answers can reach the client after the
